@@ -247,13 +247,61 @@ def raising_guards(fn):
     return out
 
 
+def _expanded_test(fn, test):
+    """Source of `test` with the local aliases of attribute chains
+    written out (`manager = bdd._bdd` ... `node not in manager`)."""
+    import re
+    alias = dict()
+    for s in au.walk_no_defs(fn):
+        if isinstance(s, ast.Assign) and len(s.targets) == 1 and \
+                isinstance(s.targets[0], ast.Name) and au.chain(s.value) \
+                and len(au.assignments_to(fn, s.targets[0].id)) == 1:
+            alias[s.targets[0].id] = au.src(s.value)
+    t = au.src(test)
+    for k, v in alias.items():
+        t = re.sub(rf'(?<![\w.]){re.escape(k)}(?![\w])', v, t)
+    return t.replace(' ', '')
+
+
+def _position(fn):
+    """Pre-order position of every node of the function (expanded
+    helpers keep the line numbers of their own file position, so line
+    numbers do not order statements)."""
+    pos = dict()
+    for k, n in enumerate(ast.walk(fn)):
+        pos[id(n)] = k
+    # ast.walk is breadth-first: use a depth-first order instead
+    pos.clear()
+    k = [0]
+
+    def visit(n):
+        pos[id(n)] = k[0]
+        k[0] += 1
+        for c in ast.iter_child_nodes(n):
+            visit(c)
+    visit(fn)
+    return pos
+
+
+def _is_membership_helper(h):
+    from .. import normalise
+    inv = normalise.load_inventory()
+    if inv is None or h.qualname in inv or not h.name.startswith('_'):
+        return False
+    for node in raising_guards(h.node):
+        t = au.src(node.test).replace(' ', '')
+        if t.endswith('notinself'):
+            return True
+    return False
+
+
 def r_guards(P, R):
     n = 0
     for q, param, mentions, before in GUARDS:
         f = P.func(q)
         found = None
         for node in raising_guards(f.node):
-            t = au.src(node.test).replace(' ', '')
+            t = _expanded_test(f.node, node.test)
             names = au.names_loaded(node.test)
             if param in names and all(m.replace(' ', '') in t
                                       for m in mentions):
@@ -269,9 +317,10 @@ def r_guards(P, R):
             continue
         n += 1
         if before is not None:
-            firsts = [c.lineno for c in au.calls_in(f.node)
+            pos = _position(f.node)
+            firsts = [pos[id(c)] for c in au.calls_in(f.node)
                       if au.call_name(c) == before]
-            if firsts and min(firsts) < found.lineno:
+            if firsts and min(firsts) < pos[id(found)]:
                 R.violation(
                     'R-RAW', 'guard-late', q, f'{param}',
                     f'{desc} is checked after `{before}` was already '
@@ -301,6 +350,17 @@ def r_guards(P, R):
                 for p in used:
                     if f'{p}notinself' in t:
                         guards.add(p)
+        # ... or hands them to a private helper that the reference tree
+        # does not have and that makes that check on what it is given
+        for c in au.calls_in(f.node):
+            if au.call_recv(c) != ['self']:
+                continue
+            h = P.func(f'dd.autoref.BDD.{au.call_name(c)}', required=False)
+            if h is None or not _is_membership_helper(h):
+                continue
+            for a in c.args:
+                if isinstance(a, ast.Name) and a.id in used:
+                    guards.add(a.id)
         missing = used - guards
         if not missing:
             n += 1
@@ -451,52 +511,10 @@ r_temporaries.NAME = 'R-PAIR(loader temporaries)'
 
 
 def r_tempdir(P, R):
-    """The temporary shelf directory is removed on every exit: nothing
-    that can fail stands between its creation and the try/finally that
-    removes it."""
-    n = 0
-    for q in ('dd._copy.load_json', 'dd._copy.dump_json'):
-        f = P.func(q)
-        body = f.node.body
-        mk = None
-        for i, st in enumerate(body):
-            if any(au.call_name(c) == 'makedirs' for c in au.calls_in(st)):
-                mk = i
-        if mk is None:
-            R.undecided('R-PAIR', q, 'temporary directory', 'not created '
-                        'here')
-            continue
-        n += 1
-        arg = None
-        for c in au.calls_in(body[mk], 'makedirs'):
-            arg = au.src(c.args[0]) if c.args else None
-        nxt = body[mk + 1] if mk + 1 < len(body) else None
-        covered = isinstance(nxt, ast.Try) and any(
-            au.call_name(c) == 'rmtree' and c.args and au.src(
-                c.args[0]) == arg
-            for st in nxt.finalbody for c in au.calls_in(st))
-        if covered:
-            R.holds('R-PAIR', q, f'makedirs({arg}) is immediately followed '
-                    'by try/finally: rmtree on every exit')
-        else:
-            gap = [st for st in body[mk + 1:] if not isinstance(st, ast.Try)]
-            later = [st for st in body[mk + 1:] if isinstance(st, ast.Try)
-                     and any(au.call_name(c) == 'rmtree'
-                             for x in st.finalbody
-                             for c in au.calls_in(x))]
-            if later:
-                R.violation(
-                    'R-PAIR', 'tempdir-leak', q, 'makedirs',
-                    f'`{au.short(gap[0], 60)}` runs after the temporary '
-                    f'directory {arg} was created and before the '
-                    'try/finally that removes it: if it raises (an '
-                    'unreadable file), the directory stays and every '
-                    'later JSON dump or load fails with FileExistsError',
-                    unit=f.unit.rel, line=gap[0].lineno)
-            else:
-                R.violation(
-                    'R-PAIR', 'tempdir-leak', q, 'rmtree',
-                    f'the temporary directory {arg} is not removed in a '
-                    'finally block', unit=f.unit.rel, line=f.lineno)
-    R.floor('R-PAIR temporary directories', n, 2)
+    """The temporary shelf directory is removed on every exit: decided on
+    the temporary directory model (rules/models.py)."""
+    from . import models
+    n = models.tempdir_model(P, R)
+    if n is not None:
+        R.floor('R-PAIR temporary directories', n, 8)
 r_tempdir.NAME = 'R-PAIR(temporary directory)'
